@@ -374,6 +374,13 @@ func runC17(c *ctxT) {
 		r.DistinctKey(fmt.Sprintf("conc/%s/%v/blocked%d", cs.Policy, cs.Ignore, bucket(len(everBlocked))))
 		r.Count("concurrent_histories", 1)
 	}
+	// ---- the call sites ----
+	nSite := 400
+	if c.Thorough {
+		nSite = 20000
+	}
+	c17PerInterface(c, rng, nSite)
+	c17Factory(c, rng, nSite/4)
 }
 
 func bucket(n int) int {
